@@ -22,12 +22,16 @@ EXTENDS Integers, Sequences, FiniteSets, TLC, Json
 CONSTANTS MaxTerm,      \* leaders of terms 1..MaxTerm
           MaxBatch,     \* entries per MsgApp
           Families,     \* set of leader-log families: each a sequence (by term) of logs (sequences of terms)
+          WithSnap,     \* leaders also send snapshots (MsgSnap)
           Alias         \* TRUE: model the defect "truncateAndAppend writes into the array the outstanding Ready reads" (self-test)
 
-VARIABLES ll, term, stable, offs, unst, commit, applied, rd, acks, match, out
+VARIABLES ll, term, stable, offs, unst, commit, applied, rd, acks, match, out,
+          snapi,     \* index of the snapshot the storage starts from (MemoryStorage.ents[0]); `stable` keeps the terms below
+                     \* it too (they are the committed prefix the snapshot stands for) but the storage cannot return them
+          usnap      \* unstable.snapshot: [i, t, from] (from = the term of the leader that sent it) or NoSnap
 
-vars == <<ll, term, stable, offs, unst, commit, applied, rd, acks, match, out>>
-View == <<ll, term, stable, offs, unst, commit, applied, rd, acks, match>>
+vars == <<ll, term, stable, offs, unst, commit, applied, rd, acks, match, out, snapi, usnap>>
+View == <<ll, term, stable, offs, unst, commit, applied, rd, acks, match, snapi, usnap>>
 
 Min2(a, b) == IF a < b THEN a ELSE b
 Max2(a, b) == IF a > b THEN a ELSE b
@@ -38,7 +42,8 @@ MinS(S) == CHOOSE x \in S : \A y \in S : x <= y
 \* repeated acknowledgements carry nothing the model needs and are not modelled
 NoAcks == [t \in 1..MaxTerm |-> 0]
 Ack(a, t, i) == [a EXCEPT ![t] = Max2(a[t], i)]
-NoRd == [has |-> FALSE, saved |-> FALSE, ents |-> <<>>, cents |-> <<>>, acks |-> NoAcks]
+NoSnap == [i |-> 0, t |-> 0, from |-> 0]
+NoRd == [has |-> FALSE, saved |-> FALSE, ents |-> <<>>, cents |-> <<>>, acks |-> NoAcks, snap |-> NoSnap]
 
 (* ------------------------------ the environment: leaders and what they may commit ------------------------------ *)
 CommonPrefix(a, b) == MaxS({0} \cup {n \in 1..Min2(Len(a), Len(b)) : \A j \in 1..n : a[j] = b[j]})
@@ -62,13 +67,15 @@ WellFormedFamily(f) ==
           /\ \A j \in 1..Len(f[t]) : LET u == f[t][j] IN j <= Len(f[u]) /\ \A i \in 1..j : f[u][i] = f[t][i]
 
 (* ------------------------------------------- raftLog as the code reads it ------------------------------------------ *)
-Last == IF unst # <<>> THEN offs + Len(unst) - 1 ELSE Len(stable)          \* raftLog.lastIndex
+First == IF usnap.i # 0 THEN usnap.i + 1 ELSE snapi + 1                      \* raftLog.firstIndex
+Last == IF unst # <<>> THEN offs + Len(unst) - 1                            \* raftLog.lastIndex
+        ELSE IF usnap.i # 0 THEN usnap.i ELSE Len(stable)
 InUnst(i) == i >= offs /\ i < offs + Len(unst)
-TermAt(i) == IF i = 0 THEN 0                                                \* raftLog.term (0 = none)
-             ELSE IF i > Last THEN 0
+TermAt(i) == IF i = 0 \/ i < First - 1 \/ i > Last THEN 0                    \* raftLog.term (0 = none)
              ELSE IF InUnst(i) THEN unst[i - offs + 1]
-             ELSE IF i <= Len(stable) THEN stable[i] ELSE 0
-Match(i, t) == (i = 0 /\ t = 0) \/ (i >= 1 /\ i <= Last /\ TermAt(i) = t)   \* raftLog.matchTerm
+             ELSE IF usnap.i # 0 /\ i = usnap.i THEN usnap.t               \* unstable.maybeTerm below offset
+             ELSE IF i >= snapi /\ i <= Len(stable) THEN stable[i] ELSE 0   \* storage.Term (ErrCompacted / ErrUnavailable = none)
+Match(i, t) == (i = 0 /\ t = 0) \/ (i >= 1 /\ t # 0 /\ TermAt(i) = t)       \* raftLog.matchTerm
 
 Ent(i, t) == [i |-> i, t |-> t]
 
@@ -78,6 +85,7 @@ Init ==
     /\ term = 0 /\ stable = <<>> /\ offs = 1 /\ unst = <<>> /\ commit = 0 /\ applied = 0
     /\ rd = NoRd /\ acks = NoAcks
     /\ match = [t \in 1..MaxTerm |-> 0]
+    /\ snapi = 0 /\ usnap = NoSnap
     /\ out = [a |-> "init"]
 
 Terms == Max2(term, 1)..MaxTerm
@@ -119,61 +127,92 @@ StepApp(t, prev, k, lc) ==
           ELSE
              /\ UNCHANGED <<offs, unst, commit, rd, acks>>
              /\ out' = [a |-> "app", t |-> t, prev |-> prev, pt |-> pt, ents |-> SubSeq(L, prev + 1, prev + k), lc |-> lc, br |-> "reject"]
-    /\ UNCHANGED <<ll, stable, applied, match>>
+    /\ UNCHANGED <<ll, stable, applied, match, snapi, usnap>>
 
 \* a delayed append of a deposed leader: ignored without an answer (no CheckQuorum / PreVote)
 StepStale(t, prev, k) ==
     /\ t < term
     /\ out' = [a |-> "app", t |-> t, prev |-> prev, pt |-> IF prev = 0 THEN 0 ELSE ll[t][prev],
                ents |-> SubSeq(ll[t], prev + 1, prev + k), lc |-> 0, br |-> "stale"]
-    /\ UNCHANGED <<ll, term, stable, offs, unst, commit, applied, rd, acks, match>>
+    /\ UNCHANGED <<ll, term, stable, offs, unst, commit, applied, rd, acks, match, snapi, usnap>>
 
 \* Step(MsgHeartbeat{Term t, Commit lc}); the leader announces min(match, committed) -- raft.handleHeartbeat
 StepHb(t, lc) ==
     /\ term' = t
     /\ commit' = Max2(commit, lc)
     /\ out' = [a |-> "hb", t |-> t, lc |-> lc]
-    /\ UNCHANGED <<ll, stable, offs, unst, applied, rd, acks, match>>
+    /\ UNCHANGED <<ll, stable, offs, unst, applied, rd, acks, match, snapi, usnap>>
+
+\* Step(MsgSnap{Term t, Snapshot{Index s, Term ll[t][s]}}): the leader found this follower too far behind (or merely thinks
+\* so) -- raft.handleSnapshot / restore / raftLog.restore / unstable.restore
+StepSnap(t, sidx) ==
+    /\ WithSnap
+    /\ term' = t
+    /\ LET st == ll[t][sidx] IN
+       IF sidx <= commit THEN
+          /\ acks' = Ack(acks, t, commit)
+          /\ UNCHANGED <<offs, unst, commit, usnap>>
+          /\ out' = [a |-> "snap", t |-> t, i |-> sidx, st |-> st, br |-> "snap-below-commit"]
+       ELSE IF Match(sidx, st) THEN                          \* the log already holds it: only the commit index moves
+          /\ commit' = sidx
+          /\ acks' = Ack(acks, t, sidx)
+          /\ UNCHANGED <<offs, unst, usnap>>
+          /\ out' = [a |-> "snap", t |-> t, i |-> sidx, st |-> st, br |-> "snap-fast-forward"]
+       ELSE
+          /\ commit' = sidx /\ offs' = sidx + 1 /\ unst' = <<>> /\ usnap' = [i |-> sidx, t |-> st, from |-> t]
+          /\ acks' = Ack(acks, t, sidx)
+          /\ out' = [a |-> "snap", t |-> t, i |-> sidx, st |-> st, br |-> "snap-restore"]
+    /\ UNCHANGED <<ll, stable, applied, rd, match, snapi>>
 
 \* RawNode.Ready: unstable entries, committed entries not yet applied, messages
 Ready ==
     /\ ~rd.has
     /\ rd' = [has |-> TRUE, saved |-> FALSE,
               ents |-> [x \in 1..Len(unst) |-> Ent(offs + x - 1, unst[x])],
-              cents |-> [x \in 1..(commit - applied) |-> Ent(applied + x, TermAt(applied + x))],
-              acks |-> acks]
+              \* raftLog.nextEnts: from max(applied + 1, firstIndex) - with a snapshot pending that is right above it, in the
+              \* same Ready (the application applies the snapshot, then the entries)
+              cents |-> LET lo == Max2(applied + 1, First) IN [x \in 1..(commit + 1 - lo) |-> Ent(lo + x - 1, TermAt(lo + x - 1))],
+              acks |-> acks, snap |-> usnap]
     /\ acks' = NoAcks
     /\ out' = [a |-> "ready"]
-    /\ UNCHANGED <<ll, term, stable, offs, unst, commit, applied, match>>
+    /\ UNCHANGED <<ll, term, stable, offs, unst, commit, applied, match, snapi, usnap>>
 
-\* the application: storage.Append(rd.Entries), then the messages go out (the leader learns the acknowledgements)
+\* the application: storage.ApplySnapshot(rd.Snapshot), storage.Append(rd.Entries), then the messages go out (the leader
+\* learns the acknowledgements)
 Save ==
     /\ rd.has /\ ~rd.saved
-    /\ stable' = IF rd.ents = <<>> THEN stable
-                 ELSE SubSeq(stable, 1, rd.ents[1].i - 1) \o [x \in 1..Len(rd.ents) |-> rd.ents[x].t]
+    /\ LET base == IF rd.snap.i # 0 THEN SubSeq(ll[rd.snap.from], 1, rd.snap.i) ELSE stable     \* ApplySnapshot: ents = [dummy]
+           sn == IF rd.snap.i # 0 THEN rd.snap.i ELSE snapi
+           keep == SelectSeq(rd.ents, LAMBDA e : e.i > sn)                                      \* Append drops what is compacted
+       IN /\ snapi' = sn
+          /\ stable' = IF keep = <<>> THEN base
+                       ELSE SubSeq(base, 1, keep[1].i - 1) \o [x \in 1..Len(keep) |-> keep[x].t]
     /\ match' = [t \in 1..MaxTerm |-> Max2(match[t], rd.acks[t])]
     /\ rd' = [rd EXCEPT !.saved = TRUE]
     /\ out' = [a |-> "save"]
-    /\ UNCHANGED <<ll, term, offs, unst, commit, applied, acks>>
+    /\ UNCHANGED <<ll, term, offs, unst, commit, applied, acks, usnap>>
 
 \* RawNode.Advance(rd): appliedTo, stableTo(index and TERM of the last entry of the Ready)
 Advance ==
     /\ rd.has /\ rd.saved
-    /\ applied' = IF rd.cents = <<>> THEN applied ELSE rd.cents[Len(rd.cents)].i
+    /\ applied' = IF rd.cents # <<>> THEN rd.cents[Len(rd.cents)].i            \* Ready.appliedCursor
+                  ELSE IF rd.snap.i # 0 THEN rd.snap.i ELSE applied
     /\ IF rd.ents # <<>> /\ InUnst(rd.ents[Len(rd.ents)].i) /\ unst[rd.ents[Len(rd.ents)].i - offs + 1] = rd.ents[Len(rd.ents)].t
        THEN LET i == rd.ents[Len(rd.ents)].i IN
             /\ unst' = SubSeq(unst, i - offs + 2, Len(unst))
             /\ offs' = i + 1
        ELSE UNCHANGED <<offs, unst>>
+    /\ usnap' = IF rd.snap.i # 0 /\ usnap.i = rd.snap.i THEN NoSnap ELSE usnap   \* unstable.stableSnapTo
     /\ rd' = NoRd
     /\ out' = [a |-> "advance"]
-    /\ UNCHANGED <<ll, term, stable, commit, acks, match>>
+    /\ UNCHANGED <<ll, term, stable, commit, acks, match, snapi>>
 
 Next ==
     \/ \E t \in Terms : \E prev \in 0..Len(ll[t]) : \E k \in 0..Min2(MaxBatch, Len(ll[t]) - prev) :
           \E lc \in {0, Min2(Committable(ll, t), prev + k)} : StepApp(t, prev, k, lc)
     \/ \E t \in 1..MaxTerm : StepStale(t, 0, 1)
     \/ \E t \in Terms : \E lc \in {0, Min2(match[t], Committable(ll, t))} : StepHb(t, lc)
+    \/ \E t \in Terms : \E sidx \in {Committable(ll, t), Committable(ll, t) - 1} \ {0, -1} : StepSnap(t, sidx)
     \/ Ready \/ Save \/ Advance
 
 Spec == Init /\ [][Next]_vars
@@ -187,12 +226,15 @@ TypeOK ==
 \* none of the library's own panics is reachable with a conforming leader and a conforming application
 NoPanic ==
     /\ commit <= Last                                                      \* raftLog.commitTo
-    /\ offs <= Len(stable) + 1                                             \* no hole between storage and unstable
-    /\ (rd.has /\ ~rd.saved /\ rd.ents # <<>> => rd.ents[1].i <= Len(stable) + 1)   \* MemoryStorage.Append "missing log entry"
+    /\ (usnap.i = 0 => offs <= Len(stable) + 1)                           \* no hole between storage and unstable
+    /\ applied <= commit /\ (rd.has /\ rd.snap.i # 0 => rd.snap.i >= applied)  \* raftLog.appliedTo
+    /\ (rd.has /\ rd.snap.i # 0 => rd.snap.i > snapi \/ rd.saved)               \* MemoryStorage.ApplySnapshot: not out of date
+    /\ (rd.has /\ ~rd.saved /\ rd.ents # <<>> =>                          \* MemoryStorage.Append "missing log entry"
+            rd.ents[1].i <= (IF rd.snap.i # 0 THEN rd.snap.i ELSE Len(stable)) + 1)
 
 \* the node's log up to its commit index is the leader's (two nodes never differ at a committed index)
 CommittedIsLeaders ==
-    term >= 1 => \A i \in 1..commit : TermAt(i) = ll[term][i]
+    term >= 1 => \A i \in Max2(First - 1, 1)..commit : TermAt(i) = ll[term][i]      \* (what a snapshot stands for is not readable)
 
 \* what the node hands out for applying is the committed entry
 AppliedIsLeaders ==
@@ -206,14 +248,14 @@ AckIsDurable ==
 
 \* and the log the node acts upon agrees with it (the clause the defect modelled by Alias breaks first)
 AckedNotLost ==
-    term >= 1 => \A i \in 1..match[term] : TermAt(i) = ll[term][i]
+    term >= 1 => \A i \in Max2(First - 1, 1)..match[term] : TermAt(i) = ll[term][i]
 
 \* when nothing is outstanding and nothing unstable, storage is the log
 Quiescent ==
-    ~rd.has /\ unst = <<>> => offs = Len(stable) + 1
+    ~rd.has /\ unst = <<>> /\ usnap.i = 0 => offs = Len(stable) + 1
 
 \* the Ready the application holds is not rewritten behind its back (an action property)
-ReadyImmutable == [][rd.has /\ rd'.has => rd'.ents = rd.ents /\ rd'.cents = rd.cents]_vars
+ReadyImmutable == [][rd.has /\ rd'.has => rd'.ents = rd.ents /\ rd'.cents = rd.cents /\ rd'.snap = rd.snap]_vars
 
 Emit == PrintT("EDGE " \o ToJson([s |-> View, a |-> out', t |-> View']))
 =============================================================================
